@@ -184,9 +184,9 @@ func (t *Queue[T]) Poll(waitIfEmpty bool) T {
 		// release locks
 		t.heapMutex.Unlock()
 
-		verifYield("poll-after-pop")
-
 		timer := time.NewTimer(time.Until(time.Time(polledElement.Key)))
+
+		verifYield("poll-before-select")
 
 		// wait for the return value to become due
 		select {
